@@ -191,6 +191,9 @@ class Bus24:
             self.log.append((("?", "non-24-bit", (cmd.frame.as_integer,)), None))
             return None
         desc = R.decode24(cmd.frame.as_integer)
+        if R.table_sendtwice(desc) and not cmd.sendtwice:
+            self.log.append((desc, None))      # a configuration command transmitted once is discarded by the units
+            return None
         answers = []
         for u in self.units:
             a = u.execute(desc)
